@@ -416,11 +416,14 @@ func c16Dynamic(rt *rapid.T) {
 		r.Kids = append(r.Kids, el)
 	}
 	doc := xdoc.NewDoc(root)
-	var all []int
+	var all, emptyMatchAttrs []int
 	for i, el := range r.Kids {
 		all = append(all, el.ID)
 		if regexp.MustCompile(items[i].p).MatchString(items[i].s) {
 			wantMatch = append(wantMatch, el.ID)
+		}
+		if regexp.MustCompile(items[i].p).MatchString("") {
+			emptyMatchAttrs = append(emptyMatchAttrs, el.Attrs[0].ID) // the @s attribute of this item
 		}
 	}
 	for _, c := range []struct {
@@ -435,6 +438,10 @@ func c16Dynamic(rt *rapid.T) {
 		{"//i[matches(t[@k][1], string(@p))]", wantMatch},
 		{"//i[replace(t[last()], string(@p), string(@r)) = @e]", all},
 		{"//i[replace(t[@k][1], string(@p), string(@r)) = @e][matches(t[@k], string(@p))]", wantMatch},
+		// the candidates are ATTRIBUTES: an attribute has no attributes, the subject @p is the
+		// empty node-set, i.e. the empty string, whatever attributes stand next to the candidate
+		{"//i/@s[matches(@p, string(../@p))]", emptyMatchAttrs},
+		{"//i/@s[matches(@*, string(../@p))]", emptyMatchAttrs},
 	} {
 		l := &harness.Live{Property: "C16", Check: "C16/dynamic", Doc: doc, Ctx: doc.Root, Expr: c.expr, Params: map[string]interface{}{"want": c.want}}
 		if f := oracleC16Dynamic(l); f != nil {
